@@ -6,6 +6,7 @@ import PicoSVG.Proofs.PathLex
 import PicoSVG.Spec.PathGrammar
 import PicoSVG.Proofs.LexP
 import PicoSVG.Proofs.SepP
+import PicoSVG.Proofs.NumAgree
 
 set_option linter.unusedSectionVars false
 namespace PicoSVG.C10
@@ -42,6 +43,22 @@ theorem splitSep_join (ts : List (List Char × Char))
 theorem matchFloat_complete (n : LexP.NumLex) (rest : List Char) (hn : n.ok = true) (hr : LexP.restOK rest = true) :
     matchFloat (n.chars ++ rest) = some (n.chars, rest) := LexP.matchFloat_complete n rest hn hr
 
+
+/-- C10-g (tokenizer = grammar, at the level of one number): whatever `_FLOAT_RE.match` takes from the argument text is exactly
+    the `number` production of the SVG path grammar under maximal munch (Spec/PathGrammar.lean) — same lexeme, same remainder —
+    unless the match is a bare integer (no fraction, no exponent) followed by a dot (`1.`, `1.e5`: the grammar's trailing-dot forms, on which the tokenizer stops short and
+    the conversion then raises ValueError instead of reading a different number) -/
+theorem matchFloat_is_grammar_number (cs l r : List Char) (h : matchFloat cs = some (l, r))
+    (hr : NumAgree.startsDot r = false ∨ NumAgree.hasMark l = true) : Spec.PathGrammar.number cs = some (l, r) :=
+  NumAgree.matchFloat_is_grammar_number cs l r h hr
+
+/-- … wherever the grammar reads a number the tokenizer finds a token too: a conforming number is never skipped -/
+theorem number_some_matchFloat_some (cs : List Char) (h : (Spec.PathGrammar.number cs).isSome = true) :
+    (matchFloat cs).isSome = true := NumAgree.number_some_matchFloat_some cs h
+
+/-- … and the arc flag scanner `^[01]` is the grammar's `flag` production -/
+theorem matchBool_is_grammar_flag (cs : List Char) : matchBool cs = Spec.PathGrammar.flag cs :=
+  NumAgree.matchBool_eq_flag cs
 
 /-! tie to the source: the regular expressions and tables the scanners stand for -/
 theorem gen_cmd_re : Gen.cmdRe = ("([mzlhvcsqtaMZLHVCSQTA])", 32) := by decide
